@@ -19,7 +19,7 @@ def ensure():
         r = sh("git -C /repo worktree add -q --detach %s HEAD" % SCRATCH)
         assert r.returncode == 0, r.stderr
     head = sh("git -C /repo rev-parse HEAD").stdout.strip()
-    sh("git -C %s checkout -q --detach %s; git -C %s checkout -- .; rm -f %s/tests/seed_demo.rs" % (SCRATCH, head, SCRATCH, SCRATCH))
+    sh("git -C %s checkout -q --detach %s; git -C %s checkout -- .; git -C %s clean -fdq -e target -e Cargo.lock; rm -f %s/tests/seed_demo.rs" % (SCRATCH, head, SCRATCH, SCRATCH, SCRATCH))
     shutil.copy("/repo/Cargo.lock", os.path.join(SCRATCH, "Cargo.lock"))
     return head
 
@@ -91,7 +91,7 @@ def confirm(pid, which, checks=None):
         shutil.copy(os.path.join(src, "%s.md" % which), os.path.join(d, "notes.md"))
         meta["needs_to_manifest"] = "see notes.md (written by the sub-agent)"
     json.dump(meta, open(os.path.join(d, "meta.json"), "w"), indent=1)
-    sh("git -C %s checkout -- ." % SCRATCH)
+    sh("git -C %s checkout -- .; git -C %s clean -fdq -e target -e Cargo.lock" % (SCRATCH, SCRATCH))
     print("   => caught by:", meta["caught_by"], "| target", pid, "caught" if pid in meta["caught_by"] else "MISSED")
 
 def rerun(names, tier="quick", only_target=False):
@@ -112,7 +112,7 @@ def rerun(names, tier="quick", only_target=False):
         meta.setdefault(key, {}).update(res)
         meta["caught_by"] = sorted(p for p, c in meta["checks_quick"].items() if c["exit"] == 1)
         json.dump(meta, open(os.path.join(d, "meta.json"), "w"), indent=1)
-        sh("git -C %s checkout -- ." % SCRATCH)
+        sh("git -C %s checkout -- .; git -C %s clean -fdq -e target -e Cargo.lock" % (SCRATCH, SCRATCH))
         print("   => caught by:", meta["caught_by"])
 
 if __name__ == "__main__":
